@@ -95,6 +95,13 @@ func (x *Exec) discharge(q *Query, tier string) *Result {
 		to = 60 * time.Second
 	}
 	ms := fmt.Sprintf("%d", int(to/time.Millisecond))
+	if q.Smoke {
+		full := x.script(q, true, true, false)
+		a, out, s := runSolver("z3-new", []string{"-in", "-t:2000"}, full, 3*time.Second)
+		res.Seconds += s
+		res.Answer, res.Backend, res.Output = a, "z3-new", out
+		return res
+	}
 	// 1. quantifier-free pass
 	qf := x.script(q, false, true, true)
 	a, out, s := runSolver("z3-new", []string{"-in", "-t:3000"}, qf, 4*time.Second)
